@@ -6,6 +6,7 @@ import BlockModes.Lemmas.MemCtsApi
 import BlockModes.Lemmas.Chk
 import BlockModes.Lemmas.MemWrapper
 import BlockModes.Thm.C08
+import BlockModes.Thm.C12
 /-
   C13 — bad lengths are rejected without side effects.
   Decision logic stated outright for the fallible entry points; absence of panics for the index arithmetic of
@@ -161,6 +162,30 @@ theorem seek_and_pos_never_panic {σ : Type} (K : Glue.Core σ) (s : Glue.Wr σ)
     (snMax p : Nat) :
     Chk.currentPos? K s snMax = some (s.currentPos K snMax) ∧ Chk.seek? K s p = some (s.seek K p) :=
   ⟨Chk.currentPos?_eq K s snMax hpos, Chk.seek?_eq K s p hbs⟩
+
+open Impl.MemAsync Glue in
+/-- **the one-shot CFB / CFB-8 calls never panic and reject exactly unequal b2b lengths**: for every input and output
+    length, every backend width: `Err` (nothing written) iff the lengths differ, otherwise the value-level result;
+    the in-place forms (`encrypt`, `decrypt`, `*_inout`) always succeed (`C12.async_oneshot_alias_indep`). -/
+theorem async_oneshot_never_panics (C : Cipher) (hC : C.Valid) (w : Nat) (iv : Bytes) (hiv : iv.length = C.bs)
+    (inp out : Bytes) :
+    asyncB2b 1 C.bs (Cfb.encBlock C) (defaultPar (Cfb.encBlock C)) (Cfb.init C iv) inp out
+      = some (if inp.length ≠ out.length then none
+              else some (asyncInOut C.bs (foldBlocks (Cfb.encBlock C)) (Cfb.encBlock C) (Cfb.init C iv) inp)) ∧
+    asyncB2b w C.bs (Cfb.decBlock C) (Cfb.decPar C) (Cfb.init C iv) inp out
+      = some (if inp.length ≠ out.length then none
+              else some (asyncInOut C.bs (foldBlocks (Cfb.decBlock C)) (Cfb.decBlock C) (Cfb.init C iv) inp)) ∧
+    asyncB2b 1 1 (Cfb8.encBlock C) (defaultPar (Cfb8.encBlock C)) (Cfb8.init C iv) inp out
+      = some (if inp.length ≠ out.length then none
+              else some (asyncInOut 1 (foldBlocks (Cfb8.encBlock C)) (Cfb8.encBlock C) (Cfb8.init C iv) inp)) ∧
+    asyncB2b 1 1 (Cfb8.decBlock C) (defaultPar (Cfb8.decBlock C)) (Cfb8.init C iv) inp out
+      = some (if inp.length ≠ out.length then none
+              else some (asyncInOut 1 (foldBlocks (Cfb8.decBlock C)) (Cfb8.decBlock C) (Cfb8.init C iv) inp)) := by
+  have hinit : (Cfb.init C iv).length = C.bs := hC.enc_len iv hiv
+  exact ⟨asyncB2b_total _ 1 C.bs hC.bs_pos _ _ (C12.cfbEnc_stepOk C hC) (fun _ _ _ => rfl) _ hinit inp out,
+    asyncB2b_total _ w C.bs hC.bs_pos _ _ (C12.cfbDec_stepOk C hC) (fun s ch _ => C03.cfb_decPar_eq_fold C ch s) _ hinit inp out,
+    asyncB2b_total _ 1 1 (by omega) _ _ (C12.cfb8Enc_stepOk C hC) (fun _ _ _ => rfl) _ hiv inp out,
+    asyncB2b_total _ 1 1 (by omega) _ _ (C12.cfb8Dec_stepOk C hC) (fun _ _ _ => rfl) _ hiv inp out⟩
 
 /-- padded decryption of a length that is not a multiple of the block size is an error (for a positive
     block size). -/
